@@ -166,7 +166,12 @@ func c14Child() {
 	conf := cfg.NewConfig()
 	conf.Bad_metrics_max_age = "24h"
 	conf.Spool_dir = dir
-	meta, err := toml.Decode(fix(c.Toml)+"\nspool_dir = \""+dir+"\"\nbad_metrics_max_age = \"24h\"\n", &conf)
+	extra := "\nspool_dir = \"" + dir + "\"\n"
+	if !strings.Contains(c.Toml, "bad_metrics_max_age") {
+		extra += "bad_metrics_max_age = \"24h\"\n"
+	}
+	// top-level keys must precede the first table: put them in front
+	meta, err := toml.Decode(extra+fix(c.Toml), &conf)
 	out := map[string]interface{}{}
 	if err != nil {
 		out["init_rejected"] = "toml: " + err.Error()
